@@ -9,7 +9,7 @@ from ..core.exprnf import NF, local_env
 from ..core.calculus import ddx, NotDifferentiable
 
 META = {
-    "explanation": "R16a scalar/array twins: the decision list of the scalar arm (guard -> value) of AntarcticIce.index, UniformIce.index and "
+    "explanation": "R16k (pointed) scalar and array arms of depth_with_index clamp to the same edges of valid_range.  R16a scalar/array twins: the decision list of the scalar arm (guard -> value) of AntarcticIce.index, UniformIce.index and "
                    "AntarcticIce.depth_with_index equals the 'formula then masked assignments' of the array arm (same comparators, bounds, values, "
                    "base formula) -- sufficient for scalar = array agreement at every depth incl. exactly on the bounds.  R16b contains() is the closed "
                    "interval and index() uses the strict complements with the declared outside indices.  R16c the syntactic derivative d/dz of the "
@@ -461,6 +461,35 @@ def r16i(ctx):
             ctx.check(not bad, "R16i", f"{q}.{m}", "parameters reach the shape dispatch unchanged", "; ".join(u(x)[:90] for x in bad), key_detail="parameter replaced",
                       loc=ctx.loc(owner.module, fn))
 
+def r16k(ctx):
+    """Pointed (contradiction between sibling arms): the scalar arm and the array arm of depth_with_index clamp to the same edges of the valid range.
+    Read off the return / masked-store statements themselves; silent when either arm clamps through a library call the rule does not read."""
+    import re
+    repo = ctx.repo
+    ctx.rule("R16k", "depth_with_index: the edges of valid_range the scalar arm returns are the edges the array arm stores under a mask (a one-sided array clamp "
+             "leaves the other side at whatever the buffer held)", expected=1, kind="N")
+    for q in (ANT,):
+        fn = repo.member(q, "depth_with_index")
+        if any(isinstance(n, ast.Call) and u(n.func).split(".")[-1] in ("clip", "where", "minimum", "maximum", "piecewise", "select", "fmin", "fmax", "putmask", "place", "copyto")
+               for n in ast.walk(fn)):
+            ctx.unknown("R16k", f"{q}.depth_with_index", "both arms clamp by explicit returns / masked stores", "a library clamp is used: not read by this rule", required=False)
+            continue
+        edge = re.compile(r"^self\.valid_range\[(-?\d+)\]$")
+        scalar = {edge.match(u(r.value)).group(1) for r in ast.walk(fn) if isinstance(r, ast.Return) and r.value is not None and edge.match(u(r.value))}
+        stores = [a for a in ast.walk(fn) if isinstance(a, ast.Assign) and len(a.targets) == 1 and isinstance(a.targets[0], ast.Subscript) and edge.match(u(a.value))]
+        array = {edge.match(u(a.value)).group(1) for a in stores}
+        if not scalar or not array:
+            ctx.unknown("R16k", f"{q}.depth_with_index", "both arms clamp by explicit returns / masked stores", f"scalar edges {sorted(scalar)}, array edges {sorted(array)}", required=False)
+            continue
+        if scalar != array:
+            miss = sorted(scalar ^ array)
+            ctx.bad("R16k", f"{q}.depth_with_index", "scalar and array arms clamp to the same edges of valid_range",
+                    f"scalar arm returns valid_range[{', '.join(sorted(scalar))}], array arm stores valid_range[{', '.join(sorted(array))}]: edge {', '.join(miss)} is handled by one arm only",
+                    key_detail="one-sided clamp", loc=ctx.loc("pyrex.ice_model", stores[-1]), pointed=True)
+        else:
+            ctx.ok("R16k", f"{q}.depth_with_index", f"both arms clamp to valid_range[{', '.join(sorted(scalar))}]")
+
+
 
 def r16j(ctx):
     """`equals the declared indices above and below the valid range` for a layered stack: whatever LayeredIce.index looks like, it can only
@@ -490,6 +519,7 @@ def r16j(ctx):
 
 def run(ctx):
     ctx.guard(r16j)
+    ctx.guard(r16k)
     ctx.guard(r16i)
     ctx.guard(r16a)
     ctx.guard(r16b)
@@ -503,6 +533,8 @@ def run(ctx):
 
 SELFTEST = {
     "faults": [
+        {"name": "array arm computes only inside the range and clamps one side", "file": "pyrex/ice_model.py",
+         "old": "        depths[n<self.index(self.valid_range[1])] = self.valid_range[1]\n", "new": "", "rule": "R16k"},
         {"name": "depths above the stack handed to the top layer instead of index_above", "file": "pyrex/custom/layered_ice/ice_model.py",
          "old": "                    n = self.index_above", "new": "                    n = self.layers[0].index(depth)", "rule": "R16j"},
         {"name": "one-element frequency array turned into a scalar", "file": "pyrex/ice_model.py", "old": "        with np.errstate(divide='ignore'):\n            # w is log of frequency in GHz",
